@@ -193,7 +193,8 @@ class Fn:
             ln = self.blocks[b]["term"].get("ln", self.line)
         else:
             ln = self.blocks[b]["st"][i].get("ln", self.line)
-        return "%s:%s" % (self.file, ln)
+        src = self.blocks[b].get("src")
+        return "%s:%s" % (src["file"] if src else self.file, ln)
 
     # --- CFG
     def succ(self, b):
